@@ -116,6 +116,7 @@ pub fn run_case(toks: &[&str], em: &mut Emitter) {
     let get = |k: &str| -> String { toks.iter().find(|x| x.starts_with(&format!("{}=", k))).map(|x| x[k.len() + 1..].to_string()).unwrap_or_default() };
     let list = |k: &str| -> Vec<usize> { get(k).split(',').filter_map(|x| x.parse().ok()).collect() };
     let c = Case { lens: list("lens"), cuts: list("cuts"), gap: get("gap").parse().unwrap_or(0), end: get("end"), endpack: get("endpack") == "1", inputs: get("inputs") == "1" };
+    watch_begin(&line_of(&c, &[]));
     let o = run(&c);
     emit_outcome(em, &c, o);
 }
@@ -159,7 +160,10 @@ pub fn generate(thorough: bool, seed: u64, part: (usize, usize), em: &mut Emitte
     // the cases are timing-bound, not CPU-bound: run them concurrently
     let width = 24;
     for chunk in mine.chunks(width) {
+        if let Some(c0) = chunk.first() { watch_begin(&line_of(c0, &[])); }
         let hs: Vec<_> = chunk.iter().cloned().map(|c| std::thread::spawn(move || { let o = run(&c); (c, o) })).collect();
-        for h in hs { if let Ok((c, o)) = h.join() { emit_outcome(em, &c, o); } }
+        let results: Vec<_> = hs.into_iter().filter_map(|h| h.join().ok()).collect();
+        watch_end();
+        for (c, o) in results { emit_outcome(em, &c, o); }
     }
 }
